@@ -11,7 +11,7 @@ FUNCTIONS = [
 BOUNDS = {
     "quick": "treatment encoder: <=3 (name,dose) rows + <=1 extra mapping row; 1-d encoder: <=3 names + <=1 extra; "
              "Screen: 2 rows x arity<=2 (and 1 row x arity 3); names/control name arbitrary strings up to order-isomorphism, doses arbitrary reals",
-    "thorough": "treatment encoder: <=4 rows + <=2 extra; 1-d encoder: <=5 + 2; Screen: 2 rows x arity<=3, 3 rows x arity<=2, with supplied superset mapping",
+    "thorough": "treatment encoder: <=4 rows, and 3+1 / 2+2 with superset mapping; 1-d encoder: <=5, 3+2; Screen: up to 4 (name,dose) cells fully symbolic (2x2 one plate), up to 4 cells with concrete doses for arity 3-4 and superset mappings",
 }
 ASSUMPTIONS = [
     "names are only compared, sorted, hashed and copied (model raises ModelGap on any other string operation), so a name is an atom of a totally ordered sort",
@@ -46,7 +46,7 @@ def configs(tier, seed):
         for r, a, x in ((2, 1, 0), (1, 2, 0), (1, 1, 1), (2, 1, 1)):
             out.append(dict(name="screen r=%d a=%d +%d" % (r, a, x), h="screen", rows=r, arity=a, extra=x))
         out.append(dict(name="screen r=2 a=2 +0 one-plate", h="screen", rows=2, arity=2, extra=0, plates="one"))
-        for r, a, x in ((2, 2, 0), (1, 3, 0), (2, 3, 0), (3, 2, 0), (1, 2, 1), (2, 2, 1), (1, 3, 1)):
+        for r, a, x in ((2, 2, 0), (1, 3, 0), (1, 2, 1), (1, 4, 0), (1, 3, 1)):
             out.append(dict(name="screen r=%d a=%d +%d fixed-doses" % (r, a, x), h="screen", rows=r, arity=a, extra=x,
                             doses="fixed", plates="one" if r * a > 4 else "sym"))
         out.append(dict(name="badmap n=2", h="badmap", n=2))
